@@ -75,7 +75,7 @@ def build_targets(case, res, conv):
         i, m = ps[0]
         sig = "panic"
         if meta["k"] == 4 and meta["fam"] == "tree-tree" and "label should be 0 or 1" in m:
-            sig = "tree-tree/K4-pruning-panic"
+            sig = "tree-tree/K4-pruning/binary-labels-assumed"
         return [], 0, [(sig, "step %d (%s %s) panics: %s" % (i, meta["fam"], meta["op"], m), "panic")]
     findings = []
     n = meta["in_dim"]
@@ -97,7 +97,7 @@ def build_targets(case, res, conv):
             findings.append(("ill-formed", "result not well-formed: %s" % errs[:2], "structural"))
             return [], n, findings
         return [Target("a %s b (%s)" % (meta["op"], meta["variant"]), "r", out, base + 3, ref, eps=eps, box=box, tighten=TAU,
-                       sig="tree-tree/" + meta["op"])], n, findings
+                       sig=("tree-tree/K4-pruning" if meta["k"] == 4 else "tree-tree/" + meta["op"]))], n, findings
     pa = Tree(res[base]["out"]).pieces(conv)
     out = res[base + 2]["out"]
     if meta["fam"] == "tree-aff":
@@ -112,6 +112,14 @@ def build_targets(case, res, conv):
     return [Target("neg", "r", out, base + 2, ref, sig="neg")], n, findings
 
 
+def describe(case, t, real, exp, xf):
+    # K=4 tree-tree arithmetic: the on-the-fly pruning reads labels as binary (0 = all rows negated, 1 = all rows kept), so it
+    # either panics on labels 2/3 or prunes with a wrong path polytope; one role for both symptoms
+    if case["meta"]["k"] == 4 and case["meta"]["fam"] == "tree-tree":
+        return "binary-labels-assumed"
+    return None
+
+
 def main():
     chk = Check("C07", "translation_validation", FUNCTIONS)
     conv = get_convention(chk)
@@ -119,7 +127,7 @@ def main():
     for c in cases:
         chk.count("fam_" + c["meta"]["fam"])
         chk.count("op_" + c["meta"]["op"])
-    run_target_check(chk, cases, "c07", "C07", conv, tag="c07")
+    run_target_check(chk, cases, "c07", "C07", conv, tag="c07", describe=describe)
     chk.cov["rule"] = ("operand pairs over shapes with <= 2 decisions (K=2) / <= 1 (K=4, every 17th case), total and partial, predicates "
                        "from a shared hyperplane pool (so pruning on the fly has something to prune); operators + - * / in rotation, "
                        "ownership variants &a+&b, a+&b, a+b, &a+b and tree+f, tree+&f, f+tree, &f+tree in rotation, negation; "
